@@ -5,6 +5,8 @@ import (
 	"go/constant"
 	"go/types"
 	"golang.org/x/tools/go/ssa"
+	"os"
+	"runtime/debug"
 	"strings"
 )
 
@@ -29,6 +31,9 @@ func (x *Exec) specCtx(st *State, cur, old *HeapView, names map[string]Value) *S
 type specErr struct{ msg string }
 
 func (sc *SpecCtx) fail(format string, a ...interface{}) {
+	if os.Getenv("VERIF_DEBUG") != "" {
+		debug.PrintStack()
+	}
 	panic(unsupportedErr{"contract: " + fmt.Sprintf(format, a...)})
 }
 
